@@ -20,6 +20,8 @@ PARAM_KINDS = {
     "liststr": arr({"type": "string"}), "listenum": arr({"$ref": REF + "Color"}), "listdate": arr({"type": "string", "format": "date"}),
     "nullstr": any_of({"type": "string"}, NULL), "nullint": {"type": ["integer", "null"]}, "model": {"$ref": REF + "Item"},
     "unionintstr": any_of({"type": "integer"}, {"type": "string"}),
+    # parameters whose model / enum classes reach the endpoint module only through a list or union (their imports are 'lazy' ones)
+    "listmodel": arr({"$ref": REF + "Item"}), "unionmodel": {"oneOf": [{"$ref": REF + "Other"}, {"type": "string"}]}, "unionenum": any_of({"$ref": REF + "Level"}, {"type": "string"}),
 }
 OK200 = {"200": {"description": "ok"}}
 
